@@ -95,8 +95,11 @@ where
                 let chunk = self.chunk_buf.split_to(next.size).freeze();
                 self.num_adjacent_reads = self.num_adjacent_reads.saturating_sub(1);
                 if self.num_adjacent_reads == 0 {
-                    // Time to make another request.
+                    // Time to make another request. The server may have sent more
+                    // than what was asked for, what is left does not belong to
+                    // the next chunk.
                     self.request = None;
+                    self.chunk_buf.clear();
                 }
                 return Poll::Ready(Some(Ok(chunk)));
             }
